@@ -260,6 +260,13 @@ class Interp:
         if k == "probe":
             w.ev("p", t, opid, self.probe(op[1] if len(op) > 1 else None))
             return
+        if k == "sprobe":
+            sc = objs.get(op[1])
+            if sc is not None:
+                w.ev("p", t, opid, {"scope": op[1], "called": sc.cancel_called,
+                                    "caught": sc.cancelled_caught, "deadline": sc.deadline,
+                                    "now": w.loop.time()})
+            return
         if k == "ntimeout":
             return await self.op_ntimeout(t, op, opid)
         if k == "ntg":
@@ -453,6 +460,12 @@ class Interp:
                 raise
             w.ev("x", t, opid, "caught", [], classify(e))
             await self.run_ops(t, on, opid + "x")
+        except TimeoutError as e:
+            on = o.get("timeout")
+            if on is None:
+                raise
+            w.ev("x", t, opid, "caught", [], classify(e))
+            await self.run_ops(t, on, opid + "t")
         finally:
             fin = o.get("finally")
             if fin:
